@@ -30,6 +30,8 @@ COMMON = ["-std=c++17", "-DTEAKRA_VERIF", "-pthread", "-Wno-unused-value"]
 FLAVOURS = {
     "fast": dict(root=REPO, cflags=["-O2", "-g1"], ldflags=[]),
     "ref": dict(root=os.path.join(VERIF, "ref"), cflags=["-O2", "-g1"], ldflags=[]),
+    # for valgrind 3.19, which cannot read clang 14's default DWARF 5
+    "vg": dict(root=REPO, cflags=["-O1", "-gdwarf-4", "-fno-omit-frame-pointer"], ldflags=[]),
     "asan": dict(root=REPO,
                  cflags=["-O1", "-g", "-fno-omit-frame-pointer", "-fsanitize=address,undefined",
                          "-fno-sanitize-recover=all", "-fno-sanitize=object-size",
